@@ -20,9 +20,9 @@ CONSTANTS
   CallExtraKw = {"z"}
   CallsWithReq = FALSE
   DevKwEval = FALSE
-VIEW ViewUnordered
+VIEW ViewNoOutUnordered
 INVARIANT C11_StoreValid
-INVARIANT C11_Accept
+PROPERTY C11_AcceptA
 INVARIANT C11_NeverInjected
 PROPERTY C11_Atomic
 CHECK_DEADLOCK FALSE
